@@ -235,6 +235,9 @@ def simplify(e):
             return ("field", x, fs)
         if k == "field":
             return proj(x[1], tuple(x[2]) + fs)
+        if k == "param" and len(x) == 3:
+            # a projection of a parameter is that parameter with a longer field path (how Expr writes it directly)
+            return ("param", x[1], tuple(x[2]) + fs)
         if k == "phi":
             alts = [proj(a, fs) for a in x[1]]
             alts = [a for a in alts if a != NEVER]
@@ -590,3 +593,66 @@ def inline_top(prog, e, crate="svgbob", rounds=3, keep=None):
             break
         e = strip(simplify(subst_params(rets[0], e[2])))
     return e
+
+
+def bool_function(prog, path, atom, depth=3, max_paths=64):
+    """the boolean function a loop-free body computes over the atomic tests `atom` recognises (atom(expr) -> name | None),
+    decided path by path with crate-local helpers inlined: returns (atoms, {assignment tuple: bool}) or (None, reason).
+    `a && b`, `if !a { return false } b`, `match (a, b) {..}` and a helper in between all give the same table."""
+    import itertools
+    from .mirlib import paths
+    ps = paths(prog, path, max_paths=max_paths)
+    if not ps:
+        return None, "the body is not loop free (or has too many paths)"
+    norm = lambda e: strip(simplify(inline_calls(prog, e, depth=depth)))
+    rows = []
+    names = set()
+    for conds, ret in ps:
+        cs = []
+        for c, tk in conds:
+            c = norm(c)
+            neg = False
+            while c[0] == "un" and c[1] == "Not":
+                c, neg = strip(c[2]), not neg
+            a = atom(c)
+            if a is None:
+                return None, "a branch on `%s` is not one of the expected tests" % _short(c)
+            names.add(a)
+            cs.append((a, tk, neg))
+        r = norm(ret)
+        neg = False
+        while r[0] == "un" and r[1] == "Not":
+            r, neg = strip(r[2]), not neg
+        if r[0] == "const" and r[1] in ("int", "bool") and r[2] in (0, 1, True, False):
+            rv = ("const", bool(r[2]) != neg)
+        else:
+            a = atom(r)
+            if a is None:
+                return None, "the result `%s` is not one of the expected tests" % _short(r)
+            names.add(a)
+            rv = ("atom", a, neg)
+        rows.append((cs, rv))
+    atoms = sorted(names)
+    table = {}
+    for asg in itertools.product((False, True), repeat=len(atoms)):
+        env = dict(zip(atoms, asg))
+        val = None
+        for cs, rv in rows:
+            ok = True
+            for a, tk, neg in cs:
+                v = int(env[a] != neg)
+                if (isinstance(tk, tuple) and v in tk[1]) or (not isinstance(tk, tuple) and v != tk):
+                    ok = False
+                    break
+            if ok:
+                val = rv[1] if rv[0] == "const" else (env[rv[1]] != rv[2])
+                break
+        if val is None:
+            return None, "no path covers %r" % (env,)
+        table[asg] = val
+    return atoms, table
+
+
+def _short(e):
+    from .mirlib import expr_str
+    return expr_str(e)[:100]
